@@ -40,8 +40,10 @@ func forall(lo, hi int, f func(int) bool) bool {
 //@   ensures len(cl.checkpoints[old(len(cl.checkpoints))].WALs) == 1
 //@   ensures ckptIndexed(cl.checkpoints[old(len(cl.checkpoints))])
 //@   loop 0:
+//@     invariant forall(func(s string) bool { return has(listed, s) ==> inFiles(fileNames, s) })
 //@     invariant forall(0, idx_, func(i int) bool { return forall(0, len(ll.levels[i].tables.l), func(j int) bool { return has(tableURISet, sst.ghostTableURI(ll.levels[i].tables.l[j])) }) })
 //@   loop 1:
+//@     invariant forall(func(s string) bool { return has(listed, s) ==> inFiles(fileNames, s) })
 //@     invariant forall(0, idx0_, func(i int) bool { return forall(0, len(ll.levels[i].tables.l), func(j int) bool { return has(tableURISet, sst.ghostTableURI(ll.levels[i].tables.l[j])) }) })
 //@     invariant forall(0, idx_, func(j int) bool { return has(tableURISet, sst.ghostTableURI(level.tables.l[j])) })
 
@@ -51,6 +53,7 @@ func forall(lo, hi int, f func(int) bool) bool {
 //@   modifies nothing
 //@   ensures result == exists(0, len(cl.checkpoints), func(j int) bool { return has(cl.checkpoints[j].tableURIset, uri) })
 //@   loop 0:
+//@     invariant forall(func(s string) bool { return has(listed, s) ==> inFiles(fileNames, s) })
 //@     invariant forall(0, idx_, func(j int) bool { return !has(cl.checkpoints[j].tableURIset, uri) })
 
 // RetainOnly keeps exactly the checkpoints whose id is listed, in order; the
@@ -116,3 +119,31 @@ func forall(lo, hi int, f func(int) bool) bool {
 //@   atcall newCheckpointFromDocument: forall(1, len(arg2.Levels), func(l int) bool { return docsSorted(arg2.Levels[l]) })
 //@   loop 3:
 //@     invariant 1 <= levelIndex && forall(1, levelIndex, func(l int) bool { return l < len(compositeCheckpointDoc.Levels) ==> docsSorted(compositeCheckpointDoc.Levels[l]) })
+
+// ---- savepoints (C14): ListFiles reports every WAL and table file of EVERY checkpoint in the
+// checkpoints document - whichever of them is restored from the copied files finds all of its
+// files - and never indexes an empty checkpoint list.
+//@ define inFiles(fs, x) := exists(0, len(fs), len(fs)-1, func(pp_ int) bool { return fs[pp_] == x })
+//@ define walsIn(fs, ck, n) := forall(0, n, func(ww_ int) bool { return inFiles(fs, ck.WALs[ww_].URI) })
+//@ define levelIn(fs, lv, n) := forall(0, n, func(tt_ int) bool { return inFiles(fs, lv[tt_].URI) })
+//@ define levelsIn(fs, ck, n) := forall(0, n, func(ll_ int) bool { return levelIn(fs, ck.Levels[ll_], len(ck.Levels[ll_])) })
+//@ define ckptIn(fs, ck) := walsIn(fs, ck, len(ck.WALs)) && levelsIn(fs, ck, len(ck.Levels))
+//@ func ListFiles
+//@   property C14
+//@   ensures result1 == nil ==> forall(0, len(jsonof(old(remaining(reader)), checkpointListDocument{}).Checkpoints), func(c int) bool {
+//@           return ckptIn(result0, jsonof(old(remaining(reader)), checkpointListDocument{}).Checkpoints[c]) })
+//@   loop 0:
+//@     invariant forall(func(s string) bool { return has(listed, s) ==> inFiles(fileNames, s) })
+//@     invariant forall(0, idx_, func(c int) bool { return ckptIn(fileNames, listDoc.Checkpoints[c]) })
+//@   loop 1:
+//@     invariant forall(func(s string) bool { return has(listed, s) ==> inFiles(fileNames, s) })
+//@     invariant forall(0, idx0_, func(c int) bool { return ckptIn(fileNames, listDoc.Checkpoints[c]) })
+//@     invariant walsIn(fileNames, ckpt, idx_)
+//@   loop 2:
+//@     invariant forall(func(s string) bool { return has(listed, s) ==> inFiles(fileNames, s) })
+//@     invariant forall(0, idx0_, func(c int) bool { return ckptIn(fileNames, listDoc.Checkpoints[c]) })
+//@     invariant walsIn(fileNames, ckpt, len(ckpt.WALs)) && levelsIn(fileNames, ckpt, idx_)
+//@   loop 3:
+//@     invariant forall(func(s string) bool { return has(listed, s) ==> inFiles(fileNames, s) })
+//@     invariant forall(0, idx0_, func(c int) bool { return ckptIn(fileNames, listDoc.Checkpoints[c]) })
+//@     invariant walsIn(fileNames, ckpt, len(ckpt.WALs)) && levelsIn(fileNames, ckpt, idx2_) && levelIn(fileNames, level, idx_)
